@@ -765,6 +765,11 @@ def _make_popen(w):
                                     keep_fds=child.info["keep_fds"], env=child.env,
                                     parent_fds=sorted(parent.fds)))
             s.spawn(_child_main(w, data, child), "main", child, is_main=True)
+            d = getattr(w, "slow_start", None)
+            if d:
+                # environment answer "Process.start() returns late" (loaded machine, slow
+                # fork_exec): the child already runs while its parent is still inside start()
+                s.point(lambda: False, d, label="fork_exec.slow", sleep=True)
 
         def duplicate_for_child(self, fd):
             self._fds.append(fd)
